@@ -191,6 +191,40 @@ class WeightedComputeWeights(Contract):
         return {0: Loop(inv=lambda S, env, g: self.inv1(S, env, g)), 1: Loop(inv=lambda S, env, g: self.inv2(S, env, g))}
 
 
+class WeightedSpecialCases(Contract):
+    """the two closed-form branches of the weighted rule: a single point carries the whole probability; three points without boundary points leave
+    the whole probability on the inner point"""
+    file, qualname = "sparseSpACE/Grid.py", "GlobalTrapezoidalGridWeighted.compute_weights"
+
+    def __init__(self, n, boundary):
+        self.n, self.boundary = n, boundary
+        self.label = "GlobalTrapezoidalGridWeighted.compute_weights[%d point%s, boundary %s]" % (n, "" if n == 1 else "s", "on" if boundary else "off")
+
+    def applies(self, receiver, args):
+        return False
+
+    def inputs(self, S):
+        x = Seq("array", [S.real("x%d" % i) for i in range(self.n)])
+        return {"grid_1D": x, "a": S.real("a"), "b": S.real("b"), "distribution": Obj("UQDistribution", {}), "boundary": self.boundary, "modified_basis": S.bool("modified_basis")}
+
+    def post(self, S, old, env, result):
+        ok = isinstance(result, Seq) and result.concrete and len(result.items) == self.n
+        if not ok:
+            return [Cl("one-weight-per-point", False, prop=True)]
+        from pyvc import values as Vv
+        ws = [Vv.to_z3(w, True) for w in result.items]
+        out = [Cl("one-weight-per-point", True, prop=True), Cl("weights-nonnegative", z3.And(*[w >= 0 for w in ws]), prop=True),
+               Cl("weights-sum-to-one", sum(ws[1:], ws[0]) == 1, prop=True)]
+        if not self.boundary and self.n >= 3:
+            out.append(Cl("boundary-points-carry-no-weight", z3.And(ws[0] == 0, ws[-1] == 0), prop=True))
+        return out
+
+    @staticmethod
+    def model_to_input(model):
+        return {"kind": "C15.weights_special"}
+
+
+
 class MomentsToExpVar(Contract):
     file, qualname = "sparseSpACE/GridOperation.py", "UncertaintyQuantification.moments_to_expectation_variance"
 
@@ -252,7 +286,7 @@ def _adist_lemma():
     return [([x1 < x2, m0 >= 0, x1 * m0 <= m1, m1 <= x2 * m0], z3.And(ww2 >= 0, m0 - ww2 >= 0, ww2 + (m0 - ww2) == m0))]
 
 
-CONTRACTS = [ZerothMoment(), FirstMoment(), WeightedComputeWeights(), MomentsToExpVar(1), MomentsToExpVar(2), MomentsToExpVar(3)]
+CONTRACTS = [ZerothMoment(), FirstMoment(), WeightedComputeWeights(), WeightedSpecialCases(1, True), WeightedSpecialCases(1, False), WeightedSpecialCases(3, False), MomentsToExpVar(1), MomentsToExpVar(2), MomentsToExpVar(3)]
 LEMMAS = [L.SmtLemma("sum-zeros", _sum_zeros_lemma, note="ghost Sum of the zero array"), L.SmtLemma("total-mass", _total_mass_lemma, note="A-DIST-ADD: interval probabilities are additive; induction over the sorted grid"),
           L.SmtLemma("sum-update", __import__("contracts.C05", fromlist=["x"])._sum_update_lemma, note="ghost Sum after one array store (induction), shared with C05"),
           L.SmtLemma("affine-transformation-of-moments", _affine_lemma), L.SmtLemma("uniform-weights-are-trapezoidal-over-length", _uniform_lemma),
